@@ -441,7 +441,7 @@ Qed.
 
 Lemma st_create_table_closed s name fds : P s -> P (fst (st_create_table s name fds)).
 Proof.
-  intros H. unfold st_create_table.
+  intros H. unfold st_create_table. destruct (names_distinct _); [|exact H]. unfold st_create_table0.
   destruct (rel_offset s name) as [o|e|]; cbn [fst]; try exact H.
   destruct e; cbn [fst]; try exact H.
   pose proof (P_create_page s H) as H1. destruct (create_page s) as [s1 pg]. cbn [fst] in H1.
